@@ -30,6 +30,8 @@ PROP = {
     'timeout_thorough': 3600},
    # raw HTTP/3 client: 2..4 auth POSTs in flight at once, then datagrams of 1..2 session IDs; at most one live socket per session
    {'name': 'TestVerifC07_E2EDoubleAuth', 'unit': 'core:server', 'kind': 'plain', 'timeout_quick': 600},
+   # real client disconnects while first datagrams of new sessions are still queued behind a parked dial
+   {'name': 'TestVerifC07_E2EDisconnectBurst', 'unit': 'core:server', 'kind': 'plain', 'timeout_quick': 600},
    {'name': 'TestVerifC07_SessionsRace', 'unit': 'core:server', 'race': True, 'thorough_only': True, 'thorough': 5000, 'shards_thorough': 4,
     'timeout_thorough': 3600},
    # real client + server over loopback, UDPIdleTimeout = 2 s: wiring in server.go, real DatagramTooLargeError path
